@@ -39,6 +39,20 @@ def desugar_tensor(
     return output
 
 
+def every_term_mentions(self: sugar.Expression, index: str) -> bool:
+    # Whether every additive term of the expanded expression mentions the index. A contraction may
+    # only be hoisted over a sum if this is true of the sum. Otherwise, the terms that do not
+    # mention the index would be summed over it too, which multiplies them by the size of that
+    # dimension.
+    match self:
+        case sugar.Add(left, right) | sugar.Subtract(left, right):
+            return every_term_mentions(left, index) and every_term_mentions(right, index)
+        case sugar.Multiply(left, right):
+            return every_term_mentions(left, index) or every_term_mentions(right, index)
+        case _:
+            return index in self.index_participants()
+
+
 @desugar_expression.register(sugar.Add)
 def desugar_add(
     self: sugar.Add, contract_indexes: set[str], ids: Iterator[int]
@@ -46,7 +60,11 @@ def desugar_add(
     left_indexes = set(self.left.index_participants().keys()).intersection(contract_indexes)
     right_indexes = set(self.right.index_participants().keys()).intersection(contract_indexes)
 
-    intersection_indexes = left_indexes.intersection(right_indexes)
+    intersection_indexes = {
+        index
+        for index in left_indexes.intersection(right_indexes)
+        if every_term_mentions(self.left, index) and every_term_mentions(self.right, index)
+    }
 
     output = desugar.Add(
         desugar_expression(self.left, left_indexes - intersection_indexes, ids),
@@ -66,7 +84,11 @@ def desugar_subtract(
     left_indexes = set(self.left.index_participants().keys()).intersection(contract_indexes)
     right_indexes = set(self.right.index_participants().keys()).intersection(contract_indexes)
 
-    intersection_indexes = left_indexes.intersection(right_indexes)
+    intersection_indexes = {
+        index
+        for index in left_indexes.intersection(right_indexes)
+        if every_term_mentions(self.left, index) and every_term_mentions(self.right, index)
+    }
 
     output = desugar.Add(
         desugar_expression(self.left, left_indexes - intersection_indexes, ids),
